@@ -50,6 +50,7 @@ def configs(tier):
     for i in range(8):
         out.append({"spake": "real" if i == 0 else "stub",
                     "faults": i % 4 != 1, "reorder_heavy": i % 2 == 0,
+                    "dilate": i in (2, 5),
                     "max_msgs": 6 if tier == "quick" else 12})
     return out
 
